@@ -148,7 +148,7 @@ struct Conn {
 	bool server_dropping = false;
 	bool in_msg = false;                // msg_process for this connection is running (its request is not reclaimed yet)       // the application has asked the library to disconnect this connection
 	int64_t defer_since_poll = -1;      // server loop iteration at which "events unread, descriptor not readable, notifications owed" was first seen (-1: not in that state)     // the server is inside qb_ipcs_request_rate_limit(): either level may be in force
-	unsigned auth_uid = 0, auth_gid = 0, auth_mode = 0600;
+	unsigned auth_uid = 0, auth_gid = 0, auth_mode = 0600; bool dir_uid_any = false, dir_gid_any = false;
 	std::string dir;                        // /dev/shm/qb-...-XXXXXX
 	int refused = 0;
 };
@@ -386,6 +386,12 @@ static int32_t cb_accept(qb_ipcs_connection_t *sc, uid_t uid, gid_t gid)
 		if (G.auth_set[c.client]) {
 			qb_ipcs_connection_auth_set(sc, G.auth_uid[c.client], G.auth_gid[c.client], G.auth_mode[c.client]);
 			c.auth_uid = G.auth_uid[c.client]; c.auth_gid = G.auth_gid[c.client]; c.auth_mode = G.auth_mode[c.client];
+			// an id of -1 is handed to chown(2) as it is: that id of the files stays the server's own
+			Proc *sp = proc_get(G.server_spid);
+			// (the connection directory was given to the peer before the callback ran and -1 leaves that as it is: its owner is
+			// then not judged for that id)
+			if (c.auth_uid == (unsigned)-1) { c.auth_uid = sp ? sp->uid : 0; c.dir_uid_any = true; }
+			if (c.auth_gid == (unsigned)-1) { c.auth_gid = sp ? sp->gid : 0; c.dir_gid_any = true; }
 			count(p_auth_set);
 		}
 		res = -G.accept_policy[c.client];
@@ -1013,7 +1019,8 @@ static void client_main(void *arg)
 						unsigned u = ~0u, g = ~0u;
 						bool known = path_owner(it->c_str(), &u, &g);
 						count(p_owner_checked);
-						if (!known || u != k.conn->auth_uid || g != k.conn->auth_gid)
+						bool isdir = S_ISDIR(st.st_mode);
+						if (!known || (u != k.conn->auth_uid && !(isdir && k.conn->dir_uid_any)) || (g != k.conn->auth_gid && !(isdir && k.conn->dir_gid_any)))
 							VIOL(5, S_ISDIR(st.st_mode) ? "directory-wrong-owner" : "file-wrong-owner", "handle_new_connection",
 							     "%s is owned by %d:%d, the accept callback authorised %u:%u (%s)", S_ISDIR(st.st_mode) ? "connection directory" : "shared file",
 							     known ? (int)u : -1, known ? (int)g : -1, k.conn->auth_uid, k.conn->auth_gid, it->c_str() + 9);
@@ -1556,7 +1563,7 @@ static void gen(const char *prop, RunSpec &spec)
 		for (int k = 0; k < nc; k++) {
 			int64_t refuse = r.chance(2, 5) ? ERRS[r.below(6)] : 0;
 			int64_t set = r.chance(1, 2);
-			p.add(0, K_S_ACCEPT_POLICY, T_TICK, -1, 0, k, refuse, set ? (MODES[r.below(5)] | ((int64_t)r.below(3) << 16) | ((int64_t)r.below(3) << 24)) : -1);
+			p.add(0, K_S_ACCEPT_POLICY, T_TICK, -1, 0, k, refuse, set ? (MODES[r.below(5)] | ((int64_t)r.below(4) << 16) | ((int64_t)r.below(4) << 24)) : -1);
 		}
 	}
 	if (w == 2 && r.chance(1, 6)) {
@@ -1704,11 +1711,11 @@ static void run(const char *prop, const RunSpec &spec)
 			int k = (int)(((op.a[3] % 3) + 3) % 3);
 			G.accept_policy[k] = (int)std::max<int64_t>(0, std::min<int64_t>(130, op.a[4]));
 			if (op.a[5] >= 0) {
-				static const unsigned IDS[] = { 0, 1000, 1001 };
+				static const unsigned IDS[] = { 0, 1000, 1001, (unsigned)-1 };
 				G.auth_set[k] = 1;
 				G.auth_mode[k] = ((unsigned)op.a[5] & 0777) | 0600;
-				G.auth_uid[k] = IDS[((op.a[5] >> 16) & 0xff) % 3];
-				G.auth_gid[k] = IDS[((op.a[5] >> 24) & 0xff) % 3];
+				G.auth_uid[k] = IDS[((op.a[5] >> 16) & 0xff) % 4];
+				G.auth_gid[k] = IDS[((op.a[5] >> 24) & 0xff) % 4];
 			}
 			continue;
 		}
